@@ -98,7 +98,7 @@ class Bar(object):
             notes = NoteContainer(notes)
         elif isinstance(notes, list):
             notes = NoteContainer(notes)
-        if self.current_beat + 1.0 / duration <= self.length + 1e-9 or self.length == 0.0:
+        if self.current_beat + 1.0 / duration <= self.length + 1e-9 or self.meter == (0, 0):
             self.bar.append([self.current_beat, duration, notes])
             self.current_beat += 1.0 / duration
             return True
